@@ -841,3 +841,273 @@ Proof.
     destruct (compact_size_head _ Hn) as (b & tl & Hc & Hz). unfold ser_vec at 1. rewrite Hc. cbn [app].
     left. destruct (tx_ins t); [congruence|]. unfold zlen in Hz. cbn [length] in Hz. lia.
 Qed.
+(* ---- the strict decoder accepts only wire-format bytes ("frame lemmas read backwards") -------------------- *)
+Lemma obind_some {A B} (m : option A) (f : A -> option B) b : obind m f = Some b -> exists a, m = Some a /\ f a = Some b.
+Proof. destruct m; cbn; [eauto|discriminate]. Qed.
+
+Lemma d_fixed_inv w s h r : d_fixed w s = Some (h, r) -> s = h ++ r /\ length h = w.
+Proof.
+  unfold d_fixed. destruct (w <=? length s)%nat eqn:E; [|discriminate]. intros H. injection H as <- <-.
+  split; [symmetry; apply firstn_skipn|]. rewrite firstn_length. lia.
+Qed.
+
+Lemma d_uint_inv w s z r : d_uint w s = Some (z, r) -> s = le_bytes w z ++ r /\ 0 <= z < 256 ^ Z.of_nat w.
+Proof.
+  unfold d_uint. intros H. apply obind_some in H. destruct H as ([h r'] & Hf & H). injection H as <- <-.
+  apply d_fixed_inv in Hf. destruct Hf as (-> & Hl). pose proof (le_decode_bound h) as Hb. rewrite Hl in Hb.
+  split.
+  - rewrite le_bytes_encode by lia. rewrite N2Z.id. rewrite <- Hl at 1. now rewrite le_encode_decode.
+  - rewrite pow256 in Hb. assert (0 < 256 ^ Z.of_nat w) by (apply Z.pow_pos_nonneg; lia). lia.
+Qed.
+
+Lemma stream_varint_ret_bound n p : stream_varint n = Ret p -> (n < 2 ^ 64)%N.
+Proof.
+  unfold stream_varint. change (2 ^ 64)%N with 18446744073709551616%N.
+  destruct (n <? 253)%N eqn:E1; [lia|]. destruct (n <=? 65535)%N eqn:E2; [lia|].
+  destruct (n <=? 4294967295)%N eqn:E3; [lia|]. destruct (n <? 18446744073709551616)%N eqn:E4; [lia|discriminate].
+Qed.
+
+Lemma d_compact_inv s n r : d_compact s = Some (n, r) -> s = compact_size (Z.of_N n) ++ r /\ (n < 2 ^ 64)%N.
+Proof.
+  unfold d_compact. destruct (varint_canonical s) eqn:C; [|discriminate].
+  destruct (parse_varint s) as [[n' r']| |] eqn:P; try discriminate. intros H. injection H as -> ->.
+  destruct (varint_parse_inv s n r P C) as (p & Hs & ->). pose proof (stream_varint_ret_bound n p Hs) as Hb.
+  split; [|exact Hb]. f_equal.
+  assert (Hz : 0 <= Z.of_N n < 2 ^ 64) by (change (2 ^ 64)%N with (Z.to_N (2 ^ 64)) in Hb; lia).
+  pose proof (stream_varint_spec (Z.of_N n) Hz) as E. rewrite N2Z.id in E. congruence.
+Qed.
+
+Lemma d_bytes_inv s v r : d_bytes s = Some (v, r) -> s = ser_bytes v ++ r /\ len63 v.
+Proof.
+  unfold d_bytes. intros H. apply obind_some in H. destruct H as ([n r'] & Hc & H).
+  destruct ((n <=? N.of_nat (length r')) && (n <? 2 ^ 63))%N eqn:E; [|discriminate]. injection H as <- <-.
+  apply d_compact_inv in Hc. destruct Hc as (-> & _).
+  assert (Hl : length (firstn (N.to_nat n) r') = N.to_nat n) by (rewrite firstn_length; lia).
+  unfold ser_bytes, len63, zlen. rewrite Hl. split.
+  - rewrite <- app_assoc, firstn_skipn. f_equal. f_equal. lia.
+  - change (2 ^ 63)%N with (Z.to_N (2 ^ 63)) in E. lia.
+Qed.
+
+Lemma d_seq_inv {A} (d : bytes -> option (A * bytes)) (ser : A -> bytes) (P : A -> Prop) :
+  (forall s x r, d s = Some (x, r) -> s = ser x ++ r /\ P x) ->
+  forall n s l r, d_seq d n s = Some (l, r) -> s = concat (map ser l) ++ r /\ length l = n /\ Forall P l.
+Proof.
+  intros Hd. induction n as [|n IH]; intros s l r; cbn [d_seq].
+  - intros H. injection H as <- <-. repeat split. constructor.
+  - intros H. apply obind_some in H. destruct H as ([x r1] & Hx & H). apply obind_some in H.
+    destruct H as ([xs r2] & Hxs & H). injection H as <- <-. apply Hd in Hx. destruct Hx as (-> & Px).
+    apply IH in Hxs. destruct Hxs as (-> & Hl & Pl). cbn [map concat length]. rewrite <- app_assoc.
+    repeat split; [lia|]. now constructor.
+Qed.
+
+Lemma d_vec_inv {A} (d : bytes -> option (A * bytes)) (ser : A -> bytes) (P : A -> Prop) :
+  (forall s x r, d s = Some (x, r) -> s = ser x ++ r /\ P x) ->
+  forall s l r, d_vec d s = Some (l, r) -> s = ser_vec ser l ++ r /\ len64 l /\ Forall P l.
+Proof.
+  intros Hd s l r H. unfold d_vec in H. apply obind_some in H. destruct H as ([n r1] & Hc & H).
+  destruct (n <=? N.of_nat (length r1))%N; [|discriminate].
+  apply d_compact_inv in Hc. destruct Hc as (-> & Hb).
+  destruct (d_seq_inv d ser P Hd _ _ _ _ H) as (-> & Hl & Pl). unfold ser_vec, len64, zlen. rewrite Hl.
+  rewrite <- app_assoc. split; [|split; [|exact Pl]].
+  - f_equal. f_equal. lia.
+  - change (2 ^ 64)%N with (Z.to_N (2 ^ 64)) in Hb. lia.
+Qed.
+
+Lemma d_txin_inv s i r : d_txin s = Some (i, r) -> s = ser_txin i ++ r /\ (txin_wf i /\ ti_witness i = []).
+Proof.
+  unfold d_txin. intros H.
+  apply obind_some in H. destruct H as ([h r1] & H1 & H). apply obind_some in H. destruct H as ([x r2] & H2 & H).
+  apply obind_some in H. destruct H as ([sc r3] & H3 & H). apply obind_some in H. destruct H as ([q r4] & H4 & H).
+  injection H as <- <-. apply d_fixed_inv in H1. destruct H1 as (-> & Hh). apply d_uint_inv in H2. destruct H2 as (-> & Hx).
+  apply d_bytes_inv in H3. destruct H3 as (-> & Hsc). apply d_uint_inv in H4. destruct H4 as (-> & Hq).
+  unfold ser_txin, txin_wf. cbn [ti_hash ti_index ti_script ti_sequence ti_witness]. rewrite <- !app_assoc.
+  repeat split; auto; try (apply u32_pow; assumption).
+Qed.
+Lemma d_txout_inv s o r : d_txout s = Some (o, r) -> s = ser_txout o ++ r /\ txout_wf o.
+Proof.
+  unfold d_txout. intros H.
+  apply obind_some in H. destruct H as ([v r1] & H1 & H). apply obind_some in H. destruct H as ([sc r2] & H2 & H).
+  injection H as <- <-. apply d_uint_inv in H1. destruct H1 as (-> & Hv). apply d_bytes_inv in H2. destruct H2 as (-> & Hsc).
+  unfold ser_txout, txout_wf. cbn [to_value to_script]. rewrite <- !app_assoc. repeat split; auto; apply u64_pow; assumption.
+Qed.
+
+Lemma d_witnesses_inv ins : Forall (fun i => txin_wf i /\ ti_witness i = []) ins ->
+  forall s ins' r, d_witnesses ins s = Some (ins', r) ->
+    s = concat (map ser_witness ins') ++ r /\ Forall txin_wf ins' /\ map ser_txin ins' = map ser_txin ins
+    /\ length ins' = length ins.
+Proof.
+  induction ins as [|i ins IH]; intros Hwf s ins' r; cbn [d_witnesses].
+  - intros H. injection H as <- <-. repeat split. constructor.
+  - inversion Hwf as [|? ? (Hi & _) Hins]; subst. intros H.
+    apply obind_some in H. destruct H as ([w r1] & Hw & H). apply obind_some in H. destruct H as ([is' r2] & His & H).
+    injection H as <- <-.
+    destruct (d_vec_inv d_bytes ser_bytes len63 d_bytes_inv _ _ _ Hw) as (-> & Hl & Pw).
+    destruct (IH Hins _ _ _ His) as (-> & W & M & L). cbn [map concat length]. rewrite <- app_assoc.
+    repeat split; [|now rewrite M|lia].
+    constructor; [|exact W]. destruct Hi as (A1 & A2 & A3 & A4 & _).
+    unfold txin_wf. cbn [ti_hash ti_index ti_script ti_sequence ti_witness]. unfold u32 in *. repeat split; try assumption; lia.
+Qed.
+
+Lemma some_witness_iff ins : some_witness ins = true <-> exists i, In i ins /\ ti_witness i <> [].
+Proof.
+  unfold some_witness. rewrite existsb_exists. split; intros (i & Hi & Hw); exists i; split; auto.
+  - destruct (ti_witness i); [discriminate|congruence].
+  - destruct (ti_witness i); [congruence|reflexivity].
+Qed.
+
+Lemma Forall_and_l {A} (P Q : A -> Prop) l : Forall (fun x => P x /\ Q x) l -> Forall P l.
+Proof. intros H. apply Forall_impl with (P := fun x => P x /\ Q x); [intros a [Ha _]; exact Ha|exact H]. Qed.
+
+Theorem decode_strict_sound b t r : decode_strict b = Some (t, r) ->
+  tx_wf t /\ tx_ins t <> [] /\ exists w, wire_format t w /\ b = w ++ r.
+Proof.
+  unfold decode_strict. intros H. apply obind_some in H. destruct H as ([ver r0] & Hv & H).
+  apply d_uint_inv in Hv. destruct Hv as (-> & Hver). destruct r0 as [|b0 r0]; [discriminate|].
+  destruct (b2n b0 =? 0)%N eqn:E0.
+  - destruct r0 as [|b1 r1]; [discriminate|]. destruct (b2n b1 =? 1)%N eqn:E1; [|discriminate].
+    apply obind_some in H. destruct H as ([ins r2] & Hi & H). apply obind_some in H. destruct H as ([outs r3] & Ho & H).
+    apply obind_some in H. destruct H as ([ins' r4] & Hw & H). apply obind_some in H. destruct H as ([lock r5] & Hl & H).
+    destruct (some_witness ins') eqn:SW; [|discriminate]. injection H as <- <-.
+    destruct (d_vec_inv d_txin ser_txin _ d_txin_inv _ _ _ Hi) as (-> & Li & Pi).
+    destruct (d_vec_inv d_txout ser_txout _ d_txout_inv _ _ _ Ho) as (-> & Lo & Po).
+    destruct (d_witnesses_inv ins Pi _ _ _ Hw) as (-> & Wi & Mi & Ln).
+    apply d_uint_inv in Hl. destruct Hl as (-> & Hlock).
+    apply some_witness_iff in SW.
+    assert (b0 = x00) as -> by (apply b2n_inj; change (b2n x00) with 0%N; lia).
+    assert (b1 = x01) as -> by (apply b2n_inj; change (b2n x01) with 1%N; lia).
+    split; [|split].
+    + unfold tx_wf. cbn [tx_version tx_ins tx_outs tx_lock_time]. repeat split; auto; try (apply u32_pow; assumption).
+      unfold len64, zlen in *. now rewrite Ln.
+    + cbn [tx_ins]. destruct SW as (i & Hin & _). destruct ins'; [destruct Hin|discriminate].
+    + exists (ser_extended (mk_tx ver ins' outs lock)). split; [left; split; [exact SW|reflexivity]|].
+      unfold ser_extended, ser_vec. cbn [tx_version tx_ins tx_outs tx_lock_time]. unfold zlen. rewrite Mi, Ln.
+      rewrite <- !app_assoc. reflexivity.
+  - apply obind_some in H. destruct H as ([ins r2] & Hi & H). apply obind_some in H. destruct H as ([outs r3] & Ho & H).
+    apply obind_some in H. destruct H as ([lock r4] & Hl & H). injection H as <- <-.
+    destruct (d_vec_inv d_txin ser_txin _ d_txin_inv _ _ _ Hi) as (E & Li & Pi).
+    destruct (d_vec_inv d_txout ser_txout _ d_txout_inv _ _ _ Ho) as (-> & Lo & Po).
+    apply d_uint_inv in Hl. destruct Hl as (-> & Hlock).
+    assert (Hne : ins <> []).
+    { intros ->. unfold ser_vec, zlen in E. cbn in E. injection E as E _. subst b0. vm_compute in E0. discriminate. }
+    split; [|split; [exact Hne|]].
+    + unfold tx_wf. cbn [tx_version tx_ins tx_outs tx_lock_time]. repeat split; auto; try (apply u32_pow; assumption).
+      eapply Forall_and_l; exact Pi.
+    + exists (ser_legacy (mk_tx ver ins outs lock)). split.
+      * right. split; [|reflexivity]. intros (i & Hin & Hw). cbn [tx_ins] in Hin. rewrite Forall_forall in Pi.
+        destruct (Pi i Hin) as (_ & Hn). contradiction.
+      * rewrite E. unfold ser_legacy. cbn [tx_version tx_ins tx_outs tx_lock_time].
+        repeat rewrite <- app_assoc. reflexivity.
+Qed.
+
+(* hence: bytes accepted by the strict decoder are parsed by pycoin's parser to the same transaction, and
+   re-serialising returns them unchanged *)
+Theorem stream_parse_canonical b t r : decode_strict b = Some (t, r) ->
+  parse_tx true b = Ret (t, r) /\ exists w, stream_tx false true t = Ret w /\ b = w ++ r.
+Proof.
+  intros H. destruct (decode_strict_sound b t r H) as (W & N & w & Hw & ->).
+  destruct (stream_parse_wire t w r W N Hw) as (P & S). split; [exact P|]. exists w. auto.
+Qed.
+(* ---- ... and it accepts every wire-format serialisation (so "canonical" is neither too wide nor too narrow) --- *)
+Lemma d_fixed_frame h r : d_fixed (length h) (h ++ r) = Some (h, r).
+Proof.
+  unfold d_fixed. rewrite app_length. replace (length h <=? length h + length r)%nat with true by lia.
+  now rewrite firstn_app_exact, skipn_app_exact.
+Qed.
+Lemma d_uint_frame w z r : 0 <= z < 256 ^ Z.of_nat w -> d_uint w (le_bytes w z ++ r) = Some (z, r).
+Proof.
+  intros H. unfold d_uint. pose proof (d_fixed_frame (le_bytes w z) r) as E. rewrite le_bytes_length in E. rewrite E.
+  cbn [obind]. rewrite le_bytes_encode by lia. rewrite le_decode_encode.
+  - f_equal. f_equal. lia.
+  - rewrite pow256. apply Z2N.inj_lt; lia.
+Qed.
+Lemma d_compact_frame n r : 0 <= n < 2 ^ 64 -> d_compact (compact_size n ++ r) = Some (Z.to_N n, r).
+Proof. intros H. unfold d_compact. destruct (varint_frame_spec n r H) as (-> & _ & ->). reflexivity. Qed.
+Lemma d_bytes_frame v r : len63 v -> d_bytes (ser_bytes v ++ r) = Some (v, r).
+Proof.
+  intros H. unfold len63, zlen in H. unfold d_bytes, ser_bytes. rewrite <- app_assoc.
+  rewrite d_compact_frame by (unfold zlen; lia). cbn [obind]. rewrite zlen_N, app_length.
+  change (2 ^ 63)%N with (Z.to_N (2 ^ 63)).
+  replace ((N.of_nat (length v) <=? N.of_nat (length v + length r))%N && (N.of_nat (length v) <? Z.to_N (2 ^ 63))%N) with true by lia.
+  now rewrite Nat2N.id, firstn_app_exact, skipn_app_exact.
+Qed.
+Lemma d_seq_frame {A B} (d : bytes -> option (B * bytes)) (ser : A -> bytes) (g : A -> B) (l : list A) :
+  (forall x, In x l -> forall r, d (ser x ++ r) = Some (g x, r)) ->
+  forall r, d_seq d (length l) (concat (map ser l) ++ r) = Some (map g l, r).
+Proof.
+  induction l as [|x l IH]; intros Hd r; [reflexivity|]. cbn [length d_seq map concat].
+  rewrite <- app_assoc, (Hd x (or_introl eq_refl)). cbn [obind]. rewrite IH; [reflexivity|].
+  intros y Hy. apply Hd. now right.
+Qed.
+Lemma d_vec_frame {A B} (d : bytes -> option (B * bytes)) (ser : A -> bytes) (g : A -> B) (l : list A) r :
+  len64 l -> (forall x, In x l -> (1 <= length (ser x))%nat /\ forall r, d (ser x ++ r) = Some (g x, r)) ->
+  d_vec d (ser_vec ser l ++ r) = Some (map g l, r).
+Proof.
+  intros Hl Hd. unfold d_vec, ser_vec. rewrite <- app_assoc.
+  rewrite d_compact_frame by (unfold len64, zlen in *; lia). cbn [obind]. rewrite zlen_N.
+  assert (Hlen : (length l <= length (concat (map ser l)))%nat).
+  { clear Hl. induction l as [|x l IH]; [cbn; lia|]. cbn [map concat length]. rewrite app_length.
+    destruct (Hd x (or_introl eq_refl)) as (H1 & _). specialize (IH (fun y Hy => Hd y (or_intror Hy))). lia. }
+  rewrite app_length. replace (N.of_nat (length l) <=? N.of_nat (length (concat (map ser l)) + length r))%N with true by lia.
+  rewrite Nat2N.id. apply d_seq_frame. intros x Hx. now destruct (Hd x Hx).
+Qed.
+Lemma d_txin_frame i r : txin_wf i -> d_txin (ser_txin i ++ r) = Some (clear_witness i, r).
+Proof.
+  intros (Hh & Hi & Hq & Hs & _). unfold d_txin, ser_txin. rewrite <- !app_assoc.
+  pose proof (d_fixed_frame (ti_hash i)) as E. rewrite Hh in E. rewrite E. cbn [obind].
+  rewrite d_uint_frame by (apply u32_pow; exact Hi). cbn [obind]. rewrite d_bytes_frame by exact Hs. cbn [obind].
+  rewrite d_uint_frame by (apply u32_pow; exact Hq). reflexivity.
+Qed.
+Lemma d_txout_frame o r : txout_wf o -> d_txout (ser_txout o ++ r) = Some (o, r).
+Proof.
+  intros (Hv & Hs). unfold d_txout, ser_txout. rewrite <- !app_assoc.
+  rewrite d_uint_frame by (apply u64_pow; exact Hv). cbn [obind]. rewrite d_bytes_frame by exact Hs. cbn [obind].
+  destruct o; reflexivity.
+Qed.
+Lemma ser_txin_length i : txin_wf i -> (1 <= length (ser_txin i))%nat.
+Proof. intros (Hh & _). unfold ser_txin. rewrite app_length. lia. Qed.
+Lemma ser_txout_length o : (1 <= length (ser_txout o))%nat.
+Proof. unfold ser_txout. rewrite app_length, le_bytes_length. lia. Qed.
+
+Lemma d_witnesses_frame ins r : Forall txin_wf ins ->
+  d_witnesses (map clear_witness ins) (concat (map ser_witness ins) ++ r) = Some (ins, r).
+Proof.
+  induction ins as [|i ins IH]; intros Hwf; [reflexivity|]. inversion Hwf as [|? ? Hi Hins]; subst.
+  cbn [map concat d_witnesses]. rewrite <- app_assoc. unfold ser_witness at 1.
+  destruct Hi as (_ & _ & _ & _ & Hl & Hw).
+  rewrite (d_vec_frame d_bytes ser_bytes (fun x => x)); [|exact Hl|].
+  - cbn [obind]. rewrite IH by exact Hins. cbn [obind]. rewrite map_id. destruct i; reflexivity.
+  - intros x Hx. rewrite Forall_forall in Hw. split; [apply ser_bytes_length|]. intros r'. apply d_bytes_frame. auto.
+Qed.
+
+Theorem decode_strict_complete t w r : tx_wf t -> tx_ins t <> [] -> wire_format t w ->
+  decode_strict (w ++ r) = Some (t, r).
+Proof.
+  intros Hwf Hne Hw. pose proof Hwf as (Hv & Hl & Hi & Ho & Hni & Hno).
+  assert (Fi : forall rr, d_vec d_txin (ser_vec ser_txin (tx_ins t) ++ rr) = Some (map clear_witness (tx_ins t), rr)).
+  { intros rr. apply d_vec_frame; [exact Hni|]. intros x Hx. rewrite Forall_forall in Hi.
+    split; [apply ser_txin_length; auto|]. intros r'. apply d_txin_frame. auto. }
+  assert (Fo : forall rr, d_vec d_txout (ser_vec ser_txout (tx_outs t) ++ rr) = Some (tx_outs t, rr)).
+  { intros rr. rewrite (d_vec_frame d_txout ser_txout (fun x => x)); [now rewrite map_id|exact Hno|].
+    intros x Hx. rewrite Forall_forall in Ho. split; [apply ser_txout_length|]. intros r'. apply d_txout_frame. auto. }
+  unfold decode_strict. destruct Hw as [(Hw & ->) | (Hw & ->)].
+  - unfold ser_extended. rewrite <- !app_assoc. rewrite d_uint_frame by (apply u32_pow; exact Hv). cbn [obind app].
+    change (b2n x00 =? 0)%N with true. change (b2n x01 =? 1)%N with true. cbv iota.
+    rewrite Fi. cbn [obind]. rewrite Fo. cbn [obind]. rewrite d_witnesses_frame by exact Hi. cbn [obind].
+    rewrite d_uint_frame by (apply u32_pow; exact Hl). cbn [obind].
+    replace (some_witness (tx_ins t)) with true by (symmetry; apply some_witness_iff; exact Hw).
+    destruct t; reflexivity.
+  - unfold ser_legacy. rewrite <- !app_assoc. rewrite d_uint_frame by (apply u32_pow; exact Hv). cbn [obind].
+    assert (Hn : 0 <= zlen (tx_ins t) < 2 ^ 64) by (unfold len64, zlen in *; lia).
+    destruct (compact_size_head _ Hn) as (b & tl & Hc & Hz).
+    set (rest := ser_vec ser_txout (tx_outs t) ++ le_bytes 4 (tx_lock_time t) ++ r).
+    pose proof (Fi rest) as Fi'.
+    assert (Ex : ser_vec ser_txin (tx_ins t) ++ rest = b :: (tl ++ concat (map ser_txin (tx_ins t))) ++ rest).
+    { unfold ser_vec. rewrite Hc. reflexivity. }
+    rewrite Ex in *.
+    assert (Hb : (b2n b =? 0)%N = false).
+    { destruct (tx_ins t); [congruence|]. unfold zlen in Hz. cbn [length] in Hz. lia. }
+    rewrite Hb, Fi'. cbn [obind]. subst rest. rewrite Fo. cbn [obind]. rewrite d_uint_frame by (apply u32_pow; exact Hl). cbn [obind].
+    f_equal. f_equal. destruct t as [v ins outs l]. cbn [tx_ins tx_version tx_outs tx_lock_time] in *. f_equal.
+    apply map_id_ext. intros i Hin. destruct i as [h x s q wi]. unfold clear_witness. cbn. f_equal.
+    destruct wi; [reflexivity|]. exfalso. apply Hw. eexists. split; [exact Hin|]. cbn. discriminate.
+Qed.
